@@ -66,6 +66,14 @@ def check(c):
     exp = numpy.array([e.predict(Q) for e in m.estimators_]).T
     if allp.shape != (3, c["n_estimators"]) or not numpy.array_equal(allp, exp):
         return dict(**{"class": "predict_all"}, what="predict_all is not the matrix of individual predictions")
+    # a batch with exactly as many rows as there are estimators (and one more): the matrix must not be read the other way round
+    for nb in (c["n_estimators"], c["n_estimators"] + 1):
+        Qs = numpy.column_stack([numpy.linspace(0, 7, nb), numpy.linspace(1, -2, nb)])
+        alls, exps = m.predict_all(Qs), numpy.array([e.predict(Qs) for e in m.estimators_]).T
+        if alls.shape != (nb, c["n_estimators"]) or not numpy.array_equal(alls, exps):
+            return dict(**{"class": "predict_all"}, what="a batch of %d rows, %d estimators: predict_all is not the matrix of individual predictions" % (nb, c["n_estimators"]))
+        if not numpy.allclose(m.predict(Qs), exps.mean(axis=1), rtol=0, atol=1e-9):
+            return dict(**{"class": "predict-mean"}, what="a batch of %d rows, %d estimators: predict is not the mean" % (nb, c["n_estimators"]))
     p = m.predict(Q)
     if not numpy.allclose(p, exp.mean(axis=1), rtol=0, atol=1e-9):
         return dict(**{"class": "predict-mean"}, what="predict is not the mean")
